@@ -172,6 +172,8 @@ def generate(rng, tier, index):
         "fault_layer": layer,
         "resume": rng.random() < 0.2,
         "two_writers": two_writers,
+        # a selector that every record matches: filtering must not change how damage is treated
+        "selector": rng.choice([None, None, None, "r._version == 1", "not r.no_such_field_zz"]),
     }
     cap = (2048 if not thorough else 65536)
     plan = {"config": cfg, "pool": pool, "ops": ops, "mode": mode, "faults": "enumerate", "cap": cap,
@@ -440,12 +442,15 @@ def read_back(world, data, cfg, reader, delivery, gz, read_error_at=None, tag="r
     got = []
     outcome = "end"
     world.fs.read_buffer_size = cfg["read_buffer_size"]
+    sel = cfg.get("selector")
+    if sel:
+        world.probe("reader-with-selector")
     try:
         if reader == "bytesio":
             fp = io.BytesIO(data)
             if gz:
                 fp = gzip.GzipFile(fileobj=fp, mode="rb")
-            rd = RecordStreamReader(fp)
+            rd = RecordStreamReader(fp, selector=sel)
         elif reader == "bufreader":
             raw = world.new_raw("rb", data, hp, label=tag)
             fp = io.BufferedReader(raw, cfg["read_buffer_size"])
@@ -453,15 +458,15 @@ def read_back(world, data, cfg, reader, delivery, gz, read_error_at=None, tag="r
             if gz:
                 fp = gzip.GzipFile(fileobj=fp, mode="rb")
                 world.keep.append(fp)
-            rd = RecordStreamReader(fp)
+            rd = RecordStreamReader(fp, selector=sel)
         elif reader == "fileobj":
             raw = world.new_raw("rb", data, hp, label=tag)
             fp = io.BufferedReader(raw, max(cfg["read_buffer_size"], 64))
             world.keep.append(fp)
-            rd = RecordReader(fileobj=fp)
+            rd = RecordReader(fileobj=fp, selector=sel)
         elif reader == "rawobj":
             raw = world.new_raw("rb", data, hp, label=tag)
-            rd = RecordReader(fileobj=raw)
+            rd = RecordReader(fileobj=raw, selector=sel)
         elif reader in ("path", "neutral"):
             if reader == "path":
                 path = "/simfs/r.records" + (".gz" if gz else "")
@@ -470,7 +475,7 @@ def read_back(world, data, cfg, reader, delivery, gz, read_error_at=None, tag="r
                 world.fs.read_buffer_size = max(cfg["read_buffer_size"], 64)
             world.fs.put(path, data)
             world.fs.read_plans[path] = hp
-            rd = RecordReader(path)
+            rd = RecordReader(path, selector=sel)
         else:
             raise ValueError(reader)
         world.keep.append(rd)
